@@ -83,6 +83,34 @@ func allocFamilies() []allocFamily {
 			)
 		}
 	}
+	// a configuration with many allowed names: the scanner really walks n elements
+	var many []string
+	for i := 0; i < 3000; i++ {
+		many = append(many, fmt.Sprintf("x-h%05d", i))
+	}
+	manyCfg := cors.Config{Origins: []string{"https://example.com"}, RequestHeaders: many}
+	for _, dbg := range []bool{false, true} {
+		dbg := dbg
+		for _, variant := range []string{"lower-case", "upper-case", "padded"} {
+			variant := variant
+			fams = append(fams, allocFamily{fmt.Sprintf("many-allowed-names/debug=%v/preflight listing the first n allowed names, %s", dbg, variant), manyCfg, dbg, func(n int) *http.Request {
+				n = min(n, len(many))
+				names := make([]string, n)
+				for i := range names {
+					switch variant {
+					case "upper-case":
+						names[i] = strings.ToUpper(many[i])
+					case "padded":
+						names[i] = " " + many[i] + "\t"
+					default:
+						names[i] = many[i]
+					}
+				}
+				return mk("OPTIONS", map[string][]string{"Origin": {"https://example.com"}, "Access-Control-Request-Method": {"GET"},
+					"Access-Control-Request-Headers": {strings.Join(names, ",")}})
+			}})
+		}
+	}
 	return fams
 }
 
